@@ -525,6 +525,10 @@ def _m_split(ex, st, s_, args, kwargs, node):
 
 @vmethod("join")
 def _m_join(ex, st, s_, args, kwargs, node):
+    if not ex.feasible(st, z3.Not(V.is_obj(s_))):
+        # .join() of an instance (a thread taken from a list): not a string join
+        key = "threading.Thread.join"
+        return ex.env.trusted.lookup(key)(ex, st, [s_] + list(args), kwargs, "join")
     return ex.env.trusted.str_join(ex, st, s_, args)
 
 
